@@ -293,3 +293,14 @@ def replay(w, rec):
     import random
 
     run_model(w["lp"], rec, random.Random(0))
+
+
+# workloads added after the seventh round of seeded changes (DESIGN section 9): part of the rule of this check
+_RULE_ADDENDUM = 'directed sweep: every vector / element-wise block spelling of the writer x sense as the single constraint and as the whole objective; the constant carried by the extracted LP data is judged too'
+_info_base = info
+
+
+def info(tier):  # noqa: F811
+    d = _info_base(tier)
+    d["rule"] = d["rule"] + "; " + _RULE_ADDENDUM
+    return d
